@@ -35,7 +35,7 @@ type c12Model struct {
 // history: script hashes with any output on the best chain; staking form payments per hash.
 func c12History(v *sim.View) (any map[[32]byte]bool, nonStaking map[[32]byte]bool, staking map[[32]byte]bool) {
 	any, nonStaking, staking = map[[32]byte]bool{}, map[[32]byte]bool{}, map[[32]byte]bool{}
-	for _, o := range v.Outs {
+	for _, o := range v.SortedOuts() {
 		if !o.HasHash {
 			continue
 		}
@@ -247,7 +247,7 @@ func c12Case(t *core.T, maxSteps int) {
 			txs = append(txs, cb)
 			// pay from a stranger coin if there is one, else directly in the coinbase
 			paid := false
-			for _, o := range v.Outs {
+			for _, o := range v.SortedOuts() {
 				if !o.Spent && o.HasHash && !k.Owned[o.Hash] && v.Mature(o) && o.Value > 5000 && o.Class == sim.ClassStd {
 					txs = append(txs, sim.Spend([]wire.OutPoint{o.OP}, nil, []*wire.TxOut{wire.NewTxOut(o.Value-1000, script)}, t.R.Uint64()|1))
 					paid = true
